@@ -48,12 +48,16 @@ def cases_for(rng, n, ctx):
             cls = str(rng.choice(gen.IDL_CLASSES))
             idl = gen.make_idl(rng, cls, N)
             name = str(rng.choice(['ens', 'A|r1', 'long name|7']))
-            kind = str(rng.choice(['normal', 'normal', 'ints', 'big', 'alternating']))
+            kind = str(rng.choice(['normal', 'normal', 'ints', 'big', 'alternating', 'offset'])) if N <= 33 else str(rng.choice(['normal', 'normal', 'ints', 'big', 'alternating']))
             if kind == 'ints':
                 x = rng.integers(-3, 4, N).astype(float)
                 x[0] += 1
             elif kind == 'big':
                 x = rng.normal(size=N) * 1e6 + 3e8
+            elif kind == 'offset':
+                # a large offset with small but well-resolved fluctuations (relative spread 1e-8)
+                c0, s0 = [(2500.0, 2e-5), (-7e5, 5e-3), (1e8, 1.0)][int(rng.integers(0, 3))]
+                x = c0 + s0 * rng.normal(size=N)
             elif kind == 'alternating':
                 x = gen.chain_data(rng, N, mean=0.3, sigma=1.0, kind='alternating')
             else:
@@ -65,9 +69,14 @@ def cases_for(rng, n, ctx):
             if isinstance(jk, Exception):
                 cases.append({'id': 'jx-' + tag, 'ev': 'jack_import', 'obs': po, 'res': _res(jk)})
                 continue
-            cases.append({'id': 'jx-' + tag, 'ev': 'jack_export', 'obs': po, 'jack': _seq(jk)})
+            # the library's own naive error: gamma_method(S=0) on a fresh copy
+            oc = pe.Obs([np.array(x)], [name], idl=[idl])
+            nv = _call(lambda: (oc.gamma_method(S=0), float(oc.dvalue))[1])
+            cases.append({'id': 'jx-' + tag, 'ev': 'jack_export', 'obs': po, 'jack': _seq(jk), 'naive': 'nan' if isinstance(nv, Exception) else ratx(nv)})
+            jk_before = _seq(jk)
             back = _call(lambda: pe.import_jackknife(jk, name, idl=[idl if rng.random() < 0.5 else list(idl)]))
             cases.append({'id': 'ji-' + tag, 'ev': 'jack_import', 'obs': po, 'res': _res(back)})
+            cases.append({'id': 'jf-' + tag, 'ev': 'frame', 'what': 'import_jackknife leaves the caller\'s samples as they were', 'before': jk_before, 'after': _seq(jk)})
             ctx.nontrivial.add((N, cls, kind))
             if N <= 40:
                 # bootstrap with a supplied table
@@ -83,8 +92,14 @@ def cases_for(rng, n, ctx):
                     continue
                 cases.append({'id': 'bx-%s-ns%d' % (tag, ns), 'ev': 'boot_export', 'obs': po, 'table': tl, 'boots': _seq(bs)})
                 if N <= 14:
+                    bs_before, tb_before = _seq(bs), [[int(v) for v in row] for row in table]
                     bi = _call(lambda: pe.import_bootstrap(bs, name, table))
                     cases.append({'id': 'bi-%s-ns%d' % (tag, ns), 'ev': 'boot_import', 'obs': po, 'table': tl, 'res': _res(bi)})
+                    cases.append({'id': 'bf-%s-ns%d' % (tag, ns), 'ev': 'frame', 'what': 'import_bootstrap leaves the caller\'s samples and table as they were',
+                                  'before': bs_before + [rat(v) for row in tb_before for v in row], 'after': _seq(bs) + [rat(int(v)) for row in table for v in row]})
+                    # a second import of the very same arrays restores the observable again
+                    bi2 = _call(lambda: pe.import_bootstrap(bs, name, table))
+                    cases.append({'id': 'bi2-%s-ns%d' % (tag, ns), 'ev': 'boot_import', 'obs': po, 'table': tl, 'res': _res(bi2)})
                 # default seeding by chain name
                 if i % 3 == 0:
                     f1, f2, f3 = (os.path.join(tmp, 'r%d_%d' % (i, k)) for k in range(3))
